@@ -63,8 +63,9 @@ type c03Run struct {
 }
 
 type c03Obs struct {
-	Distinct []c03Run `json:"distinct"`
-	Yields   int64    `json:"yields"`
+	Distinct    []c03Run `json:"distinct"`
+	Yields      int64    `json:"yields"`
+	SlowRetries int      `json:"slow_retries,omitempty"` // runs repeated because the first deadline expired
 }
 
 type c03 struct{}
@@ -400,7 +401,18 @@ var c03Yields atomic.Int64
 // c03Perturb installs a yield callback whose decisions are a function of
 // (seed, number of the call): Gosched, a short sleep, or nothing.
 func c03Perturb(seed int64, intensity int, victim int) func() {
-	var n, starts atomic.Uint64
+	var n, starts, longs atomic.Uint64
+	var slept atomic.Int64 // total injected sleep of this run, victim hold excluded
+	// A run must not accumulate seconds of injected delay (a 400-iteration foreach passes the
+	// yield points thousands of times): at most 4 long delays and 300 ms of sleep per run,
+	// after that only Gosched.
+	nap := func(d time.Duration) {
+		if slept.Add(int64(d)) > int64(300*time.Millisecond) {
+			runtime.Gosched()
+			return
+		}
+		time.Sleep(d)
+	}
 	fn := func(site string) {
 		k := n.Add(1)
 		if site == "proc.start" {
@@ -424,19 +436,19 @@ func c03Perturb(seed int64, intensity int, victim int) func() {
 		h *= 0x94D049BB133111EB
 		h ^= h >> 29
 		c03Yields.Add(1)
-		if (site == "proc.start" || site == "sched.spawn") && (h>>40)%6 == 0 {
-			// 1 in 6: a LONG delay of 2-15 ms at process spawn / start
-			time.Sleep(time.Duration(2000+(h>>12)%13000) * time.Microsecond)
+		if (site == "proc.start" || site == "sched.spawn") && (h>>40)%6 == 0 && longs.Add(1) <= 4 {
+			// 1 in 6 (at most 4 per run): a LONG delay of 2-15 ms at process spawn / start
+			nap(time.Duration(2000+(h>>12)%13000) * time.Microsecond)
 			return
 		}
 		switch h % 8 {
 		case 0, 1:
 			runtime.Gosched()
 		case 2:
-			time.Sleep(time.Duration((h>>8)%200) * time.Microsecond)
+			nap(time.Duration((h>>8)%200) * time.Microsecond)
 		case 3:
 			if intensity > 1 {
-				time.Sleep(time.Duration((h>>8)%1500) * time.Microsecond)
+				nap(time.Duration((h>>8)%1500) * time.Microsecond)
 			}
 		}
 	}
@@ -493,26 +505,56 @@ func c03RunAll(c c03Case) c03Obs {
 	if nproc == 0 {
 		nproc = 4 + strings.Count(c.Src, "|") + strings.Count(c.Src, ";")
 	}
+	// per-run deadline: scaled with the size of the program (processes + loop iterations)
+	size := nproc
+	for _, pl := range c.Prog {
+		for _, s := range pl.Stages {
+			size += 3 * s.N
+		}
+	}
+	deadline := 30*time.Second + time.Duration(size)*150*time.Millisecond
 	for i := 0; i < c.Runs; i++ {
-		runtime.GOMAXPROCS(procs[r.Intn(len(procs))])
-		stop := make(chan struct{})
-		wg := c03Noise(stop, r.Intn(4))
-		var undo func()
-		if i > 0 { // run 0 is unperturbed
-			// victim: which process start (in start order) is held back; cycles through the
-			// program's processes so every stage is the slow one in some run
-			victim := -1
-			if i%3 != 0 {
-				victim = (i + r.Intn(2)) % c03Max(nproc, 2)
+		gmp := procs[r.Intn(len(procs))]
+		noise := r.Intn(4)
+		pseed, intensity := r.Int63(), 1+r.Intn(2)
+		victim := -1
+		if i%3 != 0 {
+			// which process start (in start order) is held back; cycles through the program's
+			// processes so every stage is the slow one in some run
+			victim = (i + r.Intn(2)) % c03Max(nproc, 2)
+		}
+		// A run that does not finish before the deadline is only *suspected* to hang: the same
+		// program is run again, under the same perturbation seed, up to 2 more times with a
+		// deadline at least 5x longer (>= 90 s). A hang is recorded only if every attempt hangs:
+		// a deadlock stays a deadlock, a run that was merely slow (loaded machine) completes.
+		// Output is read only from a run that completed (RunMurex returns nothing on timeout).
+		var res MxResult
+		for attempt := 0; attempt < 3; attempt++ {
+			dl := deadline
+			if attempt > 0 {
+				dl = 5 * deadline
+				if dl < 90*time.Second {
+					dl = 90 * time.Second
+				}
 			}
-			undo = c03Perturb(r.Int63(), 1+r.Intn(2), victim)
+			runtime.GOMAXPROCS(gmp)
+			stop := make(chan struct{})
+			wg := c03Noise(stop, noise)
+			var undo func()
+			if i > 0 { // run 0 is unperturbed
+				undo = c03Perturb(pseed, intensity, victim)
+			}
+			res = RunMurex(c.Src, dl)
+			if undo != nil {
+				undo()
+			}
+			close(stop)
+			wg.Wait()
+			if !res.Timeout {
+				break
+			}
+			obs.SlowRetries++
 		}
-		res := RunMurex(c.Src, 15*time.Second)
-		if undo != nil {
-			undo()
-		}
-		close(stop)
-		wg.Wait()
 		run := c03Run{Out: res.Stdout, Err: res.Stderr, Exit: res.ExitNum, Hang: res.Timeout, Count: 1}
 		if res.Err && !res.Timeout {
 			run.Err = "<compile error>" + run.Err
